@@ -21,6 +21,16 @@ CHECKS = {
    note="Oracle: the declaration in rules.json as generated into RuleTable.tla (not rule.rules_dict). One unlisted value and one foreign name stand for all.",
    technique="TLA+ state machine over attribute assignments (MC_Attr) explored exhaustively by TLC; every state replayed through validate.node",
    design="4/C03"),
+ "C04": dict(
+   text="Trace validation: every validate.node call on every node and validate.tree on the root, in both modes, of (b) 1-3 adversarial mutations of the EML fixture and of rule-guided generated trees (16 named operators incl. every content class, hostile Unicode, non-string attribute values), (c) random trees over known/unknown names, (d) chains to depth 100 and (e) a systematic sweep of every known element x ~70 hostile contents x attributes, is recorded under a watchdog and judged by TraceValidate.tla, whose Validate action has only the outcomes 'succeeds' / 'rule error' (OutcomeOK: no other exception, collecting never raises, entry shape, list empty iff fail-fast succeeds). Error codes and exception kinds exercised are counted in the evidence.",
+   note="Inputs are the point here; the judge is small. 130k validations quick, millions thorough. Lone surrogates and nesting beyond 100 are outside the quantifier.",
+   technique="trace validation: recorded validation outcomes judged by a TLA+ trace specification (TraceValidate.tla) with TLC",
+   design="4/C04"),
+ "C05": dict(
+   text="Trace validation with a relational judge: for each tree the harness records the node table, the observed per-node outcomes (validate.node, both modes) and the observed validate.tree outcomes; TLC (TraceValidate.tla, TreeErrs/Visible) requires the tree's error list to be the document-order concatenation of the lists of the nodes not below a metadata element and fail-fast success to be the conjunction. Inputs: every single site x 4 defect kinds and (sampled / all) pairs of sites on a ~40-node generated valid tree, plus seeded 0-4 mutations of generated trees and the fixture, always with arbitrary (also invalid, also two) foreign subtrees under additionalMetadata/metadata.",
+   note="Per-node observations are taken from the same implementation; only their relation to the tree result is judged here (C04 judges the outcomes themselves).",
+   technique="trace validation with a relational TLA+ judge (TraceValidate.tla) evaluated by TLC on recorded tree validations",
+   design="4/C05"),
  "C09": dict(
    text="TLC explores every forest over 4 nodes x 2 names with every edit (append, insert at every index, remove, clear, replace, both shift modes and directions, and the failing variants) and checks the spec's own invariants/action properties; the harness replays every labelled transition, every state's full query table, all paths to depth 3/4 and seeded walks on real Node objects, and TraceForest.tla judges long random histories over 12-20 nodes recorded from the real API. Exhaustive within the bound; beyond it, sampled.",
    note="Trusted: TLC, the projection pi (public properties only), Python list semantics for building states. Assumes the usage constraint of the statement (one parent at a time, no cycles, in-range insert index). Stored parent links of unlisted nodes are not judged.",
